@@ -283,7 +283,25 @@ impl Report {
     }
 
     /// Write the report and exit: 0 when no violation, 1 when violations, 2 on machinery errors.
-    pub fn finish(self, args: &Args) -> ! {
+    pub fn finish(mut self, args: &Args) -> ! {
+        // run under shim/shortread.c? then say so, and prove the shim is in the process: one
+        // read of 100 bytes on a file of the scratch area must come back short
+        if let Ok(max) = std::env::var("SHORTREAD_MAX") {
+            use std::io::Read;
+            let probe = crate::scratch_dir("shortread-probe");
+            let p = probe.path().join("probe.bin");
+            let got = std::fs::write(&p, [7u8; 100]).and_then(|_| std::fs::File::open(&p)).and_then(|mut f| {
+                let mut b = [0u8; 100];
+                f.read(&mut b)
+            });
+            match got {
+                Ok(n) if n < 100 => {
+                    self.rule = format!("{}; environment answer: every read(2) on a regular file of the scratch area returns at most {max} bytes (LD_PRELOAD shim, probe read of 100 bytes returned {n})", self.rule);
+                    self.extra.insert("short_read_cap".into(), serde_json::json!(n));
+                }
+                other => self.machinery_errors.push(format!("SHORTREAD_MAX={max} is set but a probe read returned {other:?}: the shortread shim is not in the process")),
+            }
+        }
         let j = self.to_json();
         let text = serde_json::to_string_pretty(&j).unwrap();
         match &args.out {
